@@ -938,6 +938,57 @@ func cmdC18Oracle(args []string) {
 			fails = append(fails, map[string]any{"property": "C18", "what": "a float range boundary is not produced within the draw budget", "min": fa, "max": fb, "index": 3000 + c})
 		}
 	}
+	// (c0) the extremes of every integer kind, and of ranges that end at a type extreme, within the draw budget
+	{
+		type ext struct {
+			name string
+			hit  func(seed int) (bool, bool)
+		}
+		u64 := func(name string, g *rapid.Generator[uint64], lo, hi uint64) ext {
+			return ext{name, func(s int) (bool, bool) { v := g.Example(s); return v == lo, v == hi }}
+		}
+		i64 := func(name string, g *rapid.Generator[int64], lo, hi int64) ext {
+			return ext{name, func(s int) (bool, bool) { v := g.Example(s); return v == lo, v == hi }}
+		}
+		half := uint64(1) << 63
+		exts := []ext{
+			u64("Uint64()", rapid.Uint64(), 0, math.MaxUint64),
+			u64("Uint64Min(5)", rapid.Uint64Min(5), 5, math.MaxUint64),
+			u64("Uint64Min(2^63-1)", rapid.Uint64Min(half-1), half-1, math.MaxUint64),
+			u64("Uint64Min(2^63)", rapid.Uint64Min(half), half, math.MaxUint64),
+			u64("Uint64Max(2^63)", rapid.Uint64Max(half), 0, half),
+			u64("Uint64Max(2^64-2)", rapid.Uint64Max(math.MaxUint64-1), 0, math.MaxUint64-1),
+			u64("Uint64Range(1,2^64-1)", rapid.Uint64Range(1, math.MaxUint64), 1, math.MaxUint64),
+			i64("Int64()", rapid.Int64(), math.MinInt64, math.MaxInt64),
+			i64("Int64Range(MinInt64,0)", rapid.Int64Range(math.MinInt64, 0), math.MinInt64, 0),
+			i64("Int64Range(MinInt64,-1)", rapid.Int64Range(math.MinInt64, -1), math.MinInt64, -1),
+			i64("Int64Range(MinInt64+1,7)", rapid.Int64Range(math.MinInt64+1, 7), math.MinInt64+1, 7),
+			i64("Int64Max(0)", rapid.Int64Max(0), math.MinInt64, 0),
+			i64("Int64Min(0)", rapid.Int64Min(0), 0, math.MaxInt64),
+			{"Uint()", func(s int) (bool, bool) { v := rapid.Uint().Example(s); return v == 0, v == math.MaxUint }},
+			{"Uintptr()", func(s int) (bool, bool) { v := rapid.Uintptr().Example(s); return v == 0, v == math.MaxUint }},
+			{"Int()", func(s int) (bool, bool) { v := rapid.Int().Example(s); return v == math.MinInt, v == math.MaxInt }},
+			{"Uint32()", func(s int) (bool, bool) { v := rapid.Uint32().Example(s); return v == 0, v == math.MaxUint32 }},
+			{"Int32()", func(s int) (bool, bool) { v := rapid.Int32().Example(s); return v == math.MinInt32, v == math.MaxInt32 }},
+			{"Uint16()", func(s int) (bool, bool) { v := rapid.Uint16().Example(s); return v == 0, v == math.MaxUint16 }},
+			{"Int16()", func(s int) (bool, bool) { v := rapid.Int16().Example(s); return v == math.MinInt16, v == math.MaxInt16 }},
+			{"Uint8()", func(s int) (bool, bool) { v := rapid.Uint8().Example(s); return v == 0, v == math.MaxUint8 }},
+			{"Int8()", func(s int) (bool, bool) { v := rapid.Int8().Example(s); return v == math.MinInt8, v == math.MaxInt8 }},
+			{"Byte()", func(s int) (bool, bool) { v := rapid.Byte().Example(s); return v == 0, v == 255 }},
+		}
+		for i, e := range exts {
+			lo, hi := false, false
+			for s := 0; s < *draws && !(lo && hi); s++ {
+				a, b := e.hit(s + int(*seed)*1000003)
+				lo, hi = lo || a, hi || b
+			}
+			stats["kind_extreme_generators"]++
+			if !(lo && hi) {
+				fails = append(fails, map[string]any{"property": "C18", "what": "a range boundary (min, max or 0) is not produced within the draw budget", "generator": e.name,
+					"saw_min": lo, "saw_max": hi, "index": 8000 + i})
+			}
+		}
+	}
 	// (c') every float of a tiny range (2..32 adjacent values, anywhere on the number line) is produced
 	for c := 0; c < *nEdge; c++ {
 		k32 := uint32(pick(r, 1, 2, 3, 4, 7, 8, 15, 16, 31))
